@@ -563,7 +563,25 @@ func isInvariant(v ssa.Value, li *loopInfo) bool {
 	case *ssa.Const, *ssa.Parameter, *ssa.Global:
 		return true
 	case ssa.Instruction:
-		return !li.body[x.Block()]
+		if !li.body[x.Block()] {
+			return true
+		}
+		// recomputed in every pass from loop-invariant values: the length of a string or slice value (part of the
+		// value itself), arithmetic on invariants
+		switch y := x.(type) {
+		case *ssa.Call:
+			if bi, ok := y.Call.Value.(*ssa.Builtin); ok && (bi.Name() == "len" || bi.Name() == "cap") && len(y.Call.Args) == 1 {
+				switch y.Call.Args[0].Type().Underlying().(type) {
+				case *types.Basic, *types.Slice:
+					return isInvariant(y.Call.Args[0], li)
+				}
+			}
+		case *ssa.BinOp:
+			return isInvariant(y.X, li) && isInvariant(y.Y, li)
+		case *ssa.Convert:
+			return isInvariant(y.X, li)
+		}
+		return false
 	}
 	return false
 }
@@ -642,6 +660,13 @@ func foldBinOp(op token.Token, l, r constant.Value) (constant.Value, bool) {
 	case token.LOR, token.OR:
 		if l.Kind() == constant.Bool {
 			return constant.MakeBool(constant.BoolVal(l) || constant.BoolVal(r)), true
+		}
+	}
+	// bit sets of small non-negative integers (flag words): exact whatever the width of the type
+	if l.Kind() == constant.Int && r.Kind() == constant.Int && constant.Sign(l) >= 0 && constant.Sign(r) >= 0 {
+		switch op {
+		case token.AND, token.OR, token.XOR, token.AND_NOT:
+			return constant.BinaryOp(l, op, r), true
 		}
 	}
 	return nil, false
